@@ -18,9 +18,9 @@
 (*        InsertRenameKeepsOldKey  rename_file leaves encrypted data under the old name's key      *)
 (*        InsertAddSubstr / LFAddSubstr  update_listfile tests `content.contains(name)`: a name    *)
 (*                                 that is a SUBSTRING of a listed one is not added to (listfile)  *)
-(*        CompactFresh             compact() names files through the (listfile): without one, or   *)
-(*                                 for a name missing from it, the file is copied under a          *)
-(*                                 placeholder name (lost); a file that fails to decode is skipped *)
+(*        CompactRefuseUnreadable  compact() names files through the (listfile): without one, or   *)
+(*                                 for a name missing from it, or for a file that fails to decode, *)
+(*                                 it returns an error (2d95992; before: the file was dropped)     *)
 (*   Code0Steps/Code0Syncs    the implementation before the fix commits 20d617c c4da446 5040b10    *)
 (*                            a3b171c (kept so that TLC keeps refuting the old behaviour):         *)
 (*        InsertSpin (F-C06-b), WriteTablesInPlace (F-C06-a), CompactStale (F-C06-d),              *)
@@ -382,18 +382,31 @@ CompactStale ==
     /\ CompactTo(keep, 0)
     /\ devs' = IF keep # SessView THEN devs \cup {"compact"} ELSE devs
 
-\* the implementation now: flush, re-open, then name every live entry through the (listfile) of the
-\* file as it is; no listfile / name not listed => placeholder name (lost under its own); a file whose
-\* stored form does not decode is skipped with a log line
+\* the implementation now (5040b10, 2d95992): flush, re-open, then name every live entry through the
+\* (listfile) of the file as it is and read it; a live entry without a listed name (no listfile, or
+\* the substring deviation) gets a placeholder name, whose read fails, and a file whose stored form
+\* does not decode fails too: compact() then returns the error and leaves the archive as flushed.
 ListedNow == IF vlf /\ SlotOf(hslots, LF) # {} THEN LFContent(hslots, hblocks) \cap UNames ELSE {}
+LiveNow   == {n \in UNames : SessView[n] # None}
+Unnamed   == LiveNow \ ListedNow
+Undecodable == {n \in LiveNow \cap ListedNow : SessView[n] \in BadErrToks}
 CompactFresh ==
-    LET keep == [n \in UNames |-> IF n \notin ListedNow \/ SessView[n] \in BadErrToks THEN None ELSE SessView[n]]
-        live == {n \in UNames : SessView[n] # None} IN
-    /\ Ver < 3
-    /\ CompactTo(keep, 0)
-    /\ devs' = devs \cup (IF ~vlf /\ live # {} THEN {"nolistfile"} ELSE {})
-                     \cup (IF vlf /\ live \ ListedNow # {} THEN {"unlisted"} ELSE {})
-                     \cup (IF \E n \in live \cap ListedNow : SessView[n] \in BadErrToks THEN {"dropunreadable"} ELSE {})
+    /\ Ver < 3 /\ Unnamed = {} /\ Undecodable = {}
+    /\ CompactTo(SessView, 0) /\ UNCHANGED devs
+CompactRefuseUnreadable ==
+    /\ Ver < 3 /\ (Unnamed # {} \/ Undecodable # {})
+    /\ wopen /\ pc = "idle" /\ NewCall
+    \* the flush and the re-open at the top of compact() have happened
+    /\ IF wdirty THEN /\ ddisk' = [ddisk EXCEPT !.slots = hslots, !.blocks = hblocks, !.tpos = hcursor, !.lf = vlf, !.slk = Slack]
+                       /\ hcursor' = hcursor + Len(hblocks) + Slack
+                  ELSE UNCHANGED <<ddisk, hcursor>>
+    /\ wdirty' = FALSE
+    /\ stale' = ListedNow /\ staleMap' = SessView
+    /\ hsnap' = SessView /\ Finish("refused")
+    /\ devs' = devs \cup (IF ~vlf THEN {"nolistfile"} ELSE {})
+                     \cup (IF vlf /\ Unnamed # {} THEN {"unlisted"} ELSE {})
+                     \cup (IF Undecodable # {} THEN {"undecodable"} ELSE {})
+    /\ UNCHANGED <<hslots, hblocks, wopen, vlf>>
 \* V3/V4: compact() starts with the broken flush; what follows is not modelled (blanket F-C06-c)
 CompactV3 ==
     /\ Ver >= 3
@@ -423,7 +436,7 @@ FlushRelocateV12 == Ver < 3 /\ FlushRelocate
 CloseRelocateV12 == Ver < 3 /\ CloseRelocate
 CodeSteps   == CommonSteps \/ AddRefuseFull \/ AddAppend \/ InsertAddSubstr \/ InsertRenameKeepsOldKey \/ InsertGiveUp
 CodeSyncs   == Open \/ FlushClean \/ CloseClean \/ FlushRelocateV12 \/ CloseRelocateV12 \/ FlushV3Broken \/ CloseV3Broken
-               \/ CompactFresh \/ CompactV3
+               \/ CompactFresh \/ CompactRefuseUnreadable \/ CompactV3
 \* as coded before the fix commits
 Code0Steps  == CommonSteps \/ AddAppendNoCheck \/ AddAppendFixKeyWrongKey \/ InsertAddSubstr \/ InsertRenameKeepsOldKey \/ InsertSpin
 Code0Syncs  == Open \/ FlushClean \/ CloseClean \/ FlushInPlace \/ CloseInPlace \/ FlushV3Broken \/ CloseV3Broken \/ CompactStale
